@@ -376,6 +376,18 @@ static void runUnordered(Ctx& c, Rng& rng, const char* kindName, unsigned runs, 
 			else if (op < 90) { if (rng.chance(1, 2)) { ma.swap(mb); sa.swap(sb); } else { swap(ma, mb); swap(sa, sb); } R.step("swap", "ok", "ok"); }
 			else if (op < 92) { ma = mb; sa = sb; R.step("copy", "ok", "ok"); }
 			else if (op < 93) { ma = std::move(mb); sa = std::move(sb); recreate(mb, mkAlloc<AM>(1)); recreate(sb, mkAlloc<AS>(1)); R.step("move", "ok", "ok"); }
+			else if (op >= 93 && op < 97 && rng.chance(1, 3)) {
+				// equal contents reached on two ways: a = b; erase_if(a, pred) keeps the emptied keys of a multimap,
+				// erase(key) on b drops them; then a == b must hold
+				int mm = 2 + (int)rng.below(3), rr = (int)rng.below((uint64_t)mm);
+				ma = mb; sa = sb; R.step("copy", "ok", "ok");
+				R.step(fmt("erif a %d %d", mm, rr), fmt("%zu", eraseIfMomo<M, kind>(ma, mm, rr)), fmt("%zu", eraseIfStd<S, kind>(sa, mm, rr)));
+				std::vector<int> keys;
+				for (auto& p : sortedOf<S, kind>(sb)) if (p.first % mm == rr && (keys.empty() || keys.back() != p.first)) keys.push_back(p.first);
+				for (int kk : keys) R.step(fmt("erk b %d", kk), OM::erk(mb, kk), OS::erk(sb, kk));
+				std::string a = OM::cmp(ma, mb); c.stats.count(std::string("cmp_after_two_ways.") + a.substr(0, 1));
+				R.step("cmp", a, OS::cmp(sa, sb));
+			}
 			else if (op < 97) { std::string a = OM::cmp(ma, mb); c.stats.count(std::string("cmp.") + a.substr(0, 1)); R.step("cmp", a, OS::cmp(sa, sb)); }
 			else if (op < 98) { int mm = 2 + (int)rng.below(4), rr = (int)rng.below((uint64_t)mm); R.step(fmt("erif %s %d %d", cn, mm, rr), fmt("%zu", eraseIfMomo<M, kind>(m, mm, rr)), fmt("%zu", eraseIfStd<S, kind>(st, mm, rr))); }
 			else if (op < 99 && rng.chance(1, 3)) { m.clear(); st.clear(); R.step(fmt("clear %s", cn), "ok", "ok"); }
@@ -402,7 +414,7 @@ int main(int argc, char** argv)
 {
 	Ctx c = parseArgs(argc, argv);
 	Rng rng(c.seed * 0x1000 + 0x606 + VF_ALLOC * 0x100 + VF_OPEN * 0x10);
-	unsigned runs = c.thorough ? 60 : 14, ops = c.thorough ? 700 : 350;
+	unsigned runs = c.thorough ? 80 : 24, ops = c.thorough ? 700 : 350;
 	if (VF_ALLOC != 0) { runs = c.thorough ? 16 : 4; }
 	{
 		typedef AllocOf<KV>::type A;
